@@ -137,6 +137,23 @@ func (g *Gen) calls() []callRef {
 
 func (g *Gen) liveChain(c int) bool { return !g.W.stuck[c] }
 
+// aliasHolder finds a user holding a bridge denom of a non-FX token
+func (g *Gen) aliasHolder() (a, t, c int, ok bool) {
+	for i := range g.W.Users {
+		for tt, tk := range g.W.Toks {
+			if tk.Kind == lib.TokFX {
+				continue
+			}
+			for _, al := range tk.Aliases {
+				if g.W.C.Bal(g.W.C.Ctx, g.W.Addr(uBase+i), al.Denom).Sign() > 0 {
+					return uBase + i, tt, chainID(al.Chain), true
+				}
+			}
+		}
+	}
+	return 0, 0, 0, false
+}
+
 // receiver of a conversion: mostly the sender or another user; sometimes a blocked module address (erc20 module, a
 // chain module, the evm module: MintingEnabled / the bank must refuse) or the pair's own contract (allowed)
 func (g *Gen) receiver(a, t int) int {
@@ -410,6 +427,12 @@ func (g *Gen) Next(step int) Op {
 			return Op{K: k, C: p.C, T: p.T}
 		case "BatchExecuted":
 			bs := g.batches()
+			if len(w.liveBatch) > 0 { // what the external chain may execute (not what the fxcore store still holds)
+				bs = nil
+				for _, lb := range w.liveBatch {
+					bs = append(bs, batchRef{lb.C, lb.T, int64(lb.Nonce)})
+				}
+			}
 			if len(bs) == 0 {
 				continue
 			}
@@ -505,6 +528,13 @@ func (g *Gen) Next(step int) Op {
 			}
 			a, t = g.holder(false)
 			c = g.chainOf(t)
+			if aa, tt, cc, ok := g.aliasHolder(); ok && r.Chance(60) { // someone holds a bridge denom: convert it on (alias -> base / other alias)
+				tgt := 0
+				if r.Chance(60) {
+					tgt = g.chainOf(tt)
+				}
+				return Op{K: k, T: tt, A: aa, B: g.receiver(aa, tt), Src: cc, Tgt: tgt, X: g.amt(g.bankBal(aa, tt, cc), 2000)}
+			}
 			src, tgt := 0, c
 			if r.Chance(50) {
 				src, tgt = c, 0
